@@ -207,7 +207,7 @@ class Path:
 
 class PathSim:
     def __init__(self, F, bound=4096, havoc_loops=True, start=None, region=None,
-                 call_hook=None, max_visits=1):
+                 call_hook=None, max_visits=1, watch_reads=()):
         self.F = F
         self.cfg = cfg_of(F)
         self.bound = bound
@@ -216,6 +216,7 @@ class PathSim:
         self.region = region
         self.call_hook = call_hook
         self.max_visits = max_visits
+        self.watch_reads = set(watch_reads)
         self.paths = []
         self._loop_havoc = None
 
@@ -595,6 +596,12 @@ class PathSim:
             st.events.append(Event("asm", site, e))
             st.epoch += 1
         else:
+            if self.watch_reads and k == "cast" and e.get("ck") == "LValueToRValue":
+                sub = F.deref(e["sub"])
+                while isinstance(sub, dict) and sub.get("k") == "w":
+                    sub = F.deref(sub["sub"])
+                if isinstance(sub, dict) and sub.get("k") == "member" and sub.get("n") in self.watch_reads:
+                    st.events.append(Event("read", site, e, obj=self._lvalue(sub, st), extra=sub["n"]))
             val = self._pure(e, st)
         if eid is not None and val is not None:
             st.memo[eid] = val
